@@ -57,6 +57,13 @@ func (ex *Exec) callCommon(fr *frame, c *ssa.CallCommon, site ssa.Instruction, g
 		// interface method with a contract (keyed by the interface type)?
 		key := ifaceMethodKey(c)
 		if fc, ok := ex.db.Funcs[key]; ok {
+			if ex.traceOn {
+				ex.trace = append(ex.trace, Event{Kind: "call", Guard: g, Instr: site, Callee: key, Args: append([]Val{recv}, args...), St: s, Depth: len(ex.stack) - 1})
+				ti := len(ex.trace) - 1
+				og, ov := ex.applyContract(fr, fc, nil, c.Signature(), append([]Val{recv}, args...), ifaceParamNames(c), g, s, site, key)
+				ex.trace[ti].Res = &ov
+				return og, ov
+			}
 			return ex.applyContract(fr, fc, nil, c.Signature(), append([]Val{recv}, args...), ifaceParamNames(c), g, s, site, key)
 		}
 		ex.warn("dynamic call %s.%s abstracted (result and heap havoced)", typeKey(c.Value.Type()), c.Method.Name())
@@ -104,6 +111,9 @@ func (ex *Exec) callCommon(fr *frame, c *ssa.CallCommon, site ssa.Instruction, g
 		return ex.applyContract(fr, fc, callee, callee.Signature, args, nil, g, s, site, key)
 	}
 	name := callee.String()
+	if ex.traceOn {
+		ex.trace = append(ex.trace, Event{Kind: "call", Guard: g, Instr: site, Callee: name, Args: args, St: s, Depth: len(ex.stack) - 1})
+	}
 	if r, ok := ex.modelExternal(name, callee, args, g, s); ok {
 		return g, r
 	}
